@@ -40,6 +40,10 @@ type mstmt struct {
 	// routechain: rt.Route(Chain[0]).Route(Chain[1])… then Add(Methods, hs…), or All(hs…) when
 	// Methods is empty (Route(path).All registers a prefix middleware)
 	Chain []string `json:"chain,omitempty"`
+	// OnPrev: the call is chained onto the return value of the previous statement's call
+	// (x := grp.Use("/users", sub); x.Get(…)) instead of being made on the enclosing router. The
+	// reference composition always calls the enclosing router itself.
+	OnPrev bool `json:"on_return_value_of_previous_call,omitempty"`
 }
 
 type subCfg struct {
@@ -65,7 +69,8 @@ type mprog struct {
 	LateRoot []mstmt `json:"late_root,omitempty"`
 }
 
-var mountPrefixes = []string{"/", "/api", "/api/", "/:v", "/a/b", "/Api", "/ab", "/abc", "/:Ver"}
+// "api", "v1": prefixes spelled without their leading slash (the framework completes it)
+var mountPrefixes = []string{"/", "/api", "/api/", "/:v", "/a/b", "/Api", "/ab", "/abc", "/:Ver", "api", "v1"}
 var mountPaths = []string{"/", "/a", "/ab", "/abc", "/x", "/:p", "/a/:p", "/*", "/abc/d", "/:p?", "/api", "/a/", "/:pId", "/a/:Key", `/a\:b`, `/x\*`, `/ab\+/:p`, "/Ab", "/abc/", "/x/Y/"}
 
 // routes whose parameter carries a custom constraint; %s is the constraint's name
@@ -355,7 +360,32 @@ func (g *mgen) body(depth int, inSub bool, own *[]string, subRoot bool) []mstmt 
 			out = append(out, s)
 		}
 	}
+	// a mount closing the body sometimes gets a sibling chained onto its return value
+	if len(out) > 0 && out[len(out)-1].Kind == "mount" && r.Chance(1, 3) {
+		s := g.route(inSub, g.known(*own))
+		if s.Kind == "usenp" && subRoot {
+			g.markSubRootUse(&s)
+		}
+		out = append(out, s)
+	}
+	chainCalls(r, out)
 	return out
+}
+
+// chainCalls lets some statements be called on the return value of the statement before them
+// (grp.Use("/users", sub).Get("/health", h); x := grp.Get(…); x.Use(…)).
+func chainCalls(r *gen.Rand, out []mstmt) {
+	returnsRouter := func(k string) bool {
+		return k == "mount" || k == "m" || k == "all" || k == "use" || k == "usenp" || k == "usemulti"
+	}
+	for i := 1; i < len(out); i++ {
+		if !returnsRouter(out[i-1].Kind) || !(returnsRouter(out[i].Kind) || out[i].Kind == "group" || out[i].Kind == "routechain") {
+			continue
+		}
+		if out[i-1].Kind == "mount" && r.Chance(1, 2) || r.Chance(1, 8) {
+			out[i].OnPrev = true
+		}
+	}
 }
 
 func (g *mgen) consStmt(name string, inSub bool, own *[]string) mstmt {
@@ -448,7 +478,7 @@ func mHandler(tr *mtrace, h hspec) fiber.Handler {
 
 // mApplyRoute performs the statement's API call on rt. shared holds the build's slice variables
 // (nil: every Use([]string…) call gets a slice literal of its own).
-func mApplyRoute(rt fiber.Router, s *mstmt, tr *mtrace, shared [][]string) {
+func mApplyRoute(rt fiber.Router, s *mstmt, tr *mtrace, shared [][]string) fiber.Router {
 	hs := make([]fiber.Handler, len(s.Hs))
 	for i, h := range s.Hs {
 		hs[i] = mHandler(tr, h)
@@ -469,16 +499,17 @@ func mApplyRoute(rt fiber.Router, s *mstmt, tr *mtrace, shared [][]string) {
 		if shared != nil && s.Share > 0 {
 			pf = shared[s.Share-1]
 		}
-		rt.Use(append([]any{pf}, anyHs(hs[0], hs[1:])...)...)
+		return rt.Use(append([]any{pf}, anyHs(hs[0], hs[1:])...)...)
 	case "m":
-		rt.Add(s.Methods, s.Path, hs[0], hs[1:]...)
+		return rt.Add(s.Methods, s.Path, hs[0], hs[1:]...)
 	case "all":
-		rt.All(s.Path, hs[0], hs[1:]...)
+		return rt.All(s.Path, hs[0], hs[1:]...)
 	case "use":
-		rt.Use(append([]any{s.Path}, anyHs(hs[0], hs[1:])...)...)
+		return rt.Use(append([]any{s.Path}, anyHs(hs[0], hs[1:])...)...)
 	case "usenp":
-		rt.Use(anyHs(hs[0], hs[1:])...)
+		return rt.Use(anyHs(hs[0], hs[1:])...)
 	}
+	return nil
 }
 
 // mGroup opens the group of a group statement, with its middleware if it has any.
@@ -519,9 +550,15 @@ func buildMounted(p *mprog, tr *mtrace, allOnRoot bool) *fiber.App {
 	}
 	app := p.newApp(p.Cfg, rootCons)
 	var build func(rt fiber.Router, owner *fiber.App, body []mstmt)
-	build = func(rt fiber.Router, owner *fiber.App, body []mstmt) {
+	build = func(encl fiber.Router, owner *fiber.App, body []mstmt) {
+		var prev fiber.Router // what the previous statement's call returned
 		for i := range body {
 			s := &body[i]
+			rt := encl
+			if s.OnPrev && prev != nil {
+				rt = prev
+			}
+			prev = nil
 			if mApplyMeta(owner, app, s) {
 				continue
 			}
@@ -530,9 +567,9 @@ func buildMounted(p *mprog, tr *mtrace, allOnRoot bool) *fiber.App {
 				sub := p.subApp(s)
 				build(sub, sub, s.Body)
 				if len(s.PrefixList) > 0 {
-					rt.Use(append([]string(nil), s.PrefixList...), sub)
+					prev = rt.Use(append([]string(nil), s.PrefixList...), sub)
 				} else {
-					rt.Use(s.Prefix, sub)
+					prev = rt.Use(s.Prefix, sub)
 				}
 				if len(s.Late) > 0 {
 					ls := s.Late
@@ -545,7 +582,7 @@ func buildMounted(p *mprog, tr *mtrace, allOnRoot bool) *fiber.App {
 			case "group":
 				build(mGroup(rt, s, tr), owner, s.Body)
 			default:
-				mApplyRoute(rt, s, tr, shared)
+				prev = mApplyRoute(rt, s, tr, shared)
 			}
 		}
 	}
@@ -592,16 +629,22 @@ func buildGrouped(p *mprog, tr *mtrace) *fiber.App {
 	shared := p.sharedLists()
 	app := p.newApp(p.Cfg, p.RootCons)
 	var build func(rt fiber.Router, body []mstmt)
-	build = func(rt fiber.Router, body []mstmt) {
+	build = func(encl fiber.Router, body []mstmt) {
+		var prev fiber.Router
 		for i := range body {
 			s := &body[i]
+			rt := encl
+			if s.OnPrev && prev != nil {
+				rt = prev
+			}
+			prev = nil
 			if mApplyMeta(app, app, s) {
 				continue
 			}
 			if s.Kind == "group" {
 				build(mGroup(rt, s, tr), s.Body)
 			} else {
-				mApplyRoute(rt, s, tr, shared)
+				prev = mApplyRoute(rt, s, tr, shared)
 			}
 		}
 	}
@@ -731,6 +774,9 @@ func mountShape(p *mprog) string {
 				if len(s.PrefixList) > 0 {
 					kinds["prefix-given-as-list"] = true
 				}
+				if !strings.HasPrefix(s.Prefix, "/") {
+					kinds["prefix-without-leading-slash"] = true
+				}
 				walk(s.Body, depth+1)
 			} else if s.Kind == "group" {
 				walk(s.Body, depth)
@@ -769,6 +815,31 @@ func mountFeatures(p *mprog, s *mstmt, nested bool, kinds map[string]bool) {
 	if len(s.PrefixList) > 0 {
 		kinds["prefix-given-as-list"] = true
 	}
+	if !strings.HasPrefix(s.Prefix, "/") {
+		kinds["prefix-without-leading-slash"] = true
+	}
+}
+
+// chainedHandlers: ids of handlers registered by calls chained onto a return value (and, for a
+// chained mount or group, everything inside it).
+func chainedHandlers(p *mprog) map[int]bool {
+	out := map[int]bool{}
+	var walk func(b []mstmt, in bool)
+	walk = func(b []mstmt, in bool) {
+		for i := range b {
+			s := &b[i]
+			on := in || s.OnPrev
+			if on {
+				for _, h := range s.Hs {
+					out[h.ID] = true
+				}
+			}
+			walk(s.Body, on)
+			walk(s.Late, on)
+		}
+	}
+	walk(p.Root, false)
+	return out
 }
 
 // handlerShapes gives, for every handler living in a mounted app, the input class of the mount
@@ -851,10 +922,22 @@ func checkMounted(e *ev.Env, c *ev.Case, p *mprog, g *mgen, reqs [][2]string) {
 	if hasKind(p.Root, "rebuild") {
 		progClass = "+rebuildtree-during-registration"
 	}
+	chained := chainedHandlers(p)
 	shapeOf := func(a, b []mrec) string {
 		i := 0
 		for i < len(a) && i < len(b) && a[i].ID == b[i].ID {
 			i++
+		}
+		for _, recs := range [][]mrec{a, b} {
+			if i < len(recs) && chained[recs[i].ID] {
+				// the first handler that ran in one composition only was registered through a call
+				// chained onto the return value of another call
+				sh := hshapes[recs[i].ID]
+				if sh == "" {
+					sh = "handlers-outside-mounted-apps"
+				}
+				return sh + "+call-chained-on-return-value" + progClass + stageClass
+			}
 		}
 		for _, recs := range [][]mrec{a, b} {
 			if i < len(recs) {
@@ -1179,7 +1262,7 @@ func runMount(e *ev.Env) {
 			var out []mstmt
 			for i := 0; i < n && g.budget > 0; i++ {
 				if depth < 3 && r.Chance(1, 3) {
-					grp := mstmt{Kind: "group", Prefix: gen.Pick(r, []string{"/api", "/:v", "/a/b", "/Api", "/ab", "/abc", "/api/", "/a/b/", "/:Ver", "", "/", "/v1/"})}
+					grp := mstmt{Kind: "group", Prefix: gen.Pick(r, []string{"/api", "/:v", "/a/b", "/Api", "/ab", "/abc", "/api/", "/a/b/", "/:Ver", "", "/", "/v1/", "v1", "api"})}
 					if r.Chance(1, 3) {
 						grp.Hs = g.hs(true) // Group(prefix, middleware…)
 					}
@@ -1206,6 +1289,7 @@ func runMount(e *ev.Env) {
 				}
 				out = append(out, s)
 			}
+			chainCalls(r, out)
 			return out
 		}
 		p.Root = body(0)
